@@ -145,3 +145,12 @@ def time_limit(seconds, label, **sig):
     finally:
         signal.setitimer(signal.ITIMER_REAL, 0)
         signal.signal(signal.SIGALRM, old)
+
+
+# --------------------------------------------------------------------------
+# extra measured counters (e.g. interleavings explored inside one spec)
+COUNTERS: dict = {}
+
+
+def count(name, k=1):
+    COUNTERS[name] = COUNTERS.get(name, 0) + k
